@@ -191,7 +191,9 @@ Proof.
       | exact I ]. }
   destruct file as [c0|].
   - destruct (m_excl m); [discriminate|]. injection Hs as <-. injection Hr as <-. cbn [r_content]. apply Hgen.
-  - destruct (m_must_exist m); [discriminate|]. injection Hs as <-. injection Hr as <-. cbn [r_content]. apply Hgen.
+  - destruct (m_must_exist m); [discriminate|]. injection Hs as <-. injection Hr as <-. cbn [r_content].
+    specialize (Hgen []). change (zlen []) with 0 in *.
+    destruct (m_append m); exact Hgen.
 Qed.
 
 (* the partial refinement theorem *)
